@@ -1,4 +1,5 @@
 import VlsModel.Lemmas.Prune
+import VlsModel.Lemmas.PruneChain
 /-
 C15 — Channels are forgotten only when it is safe, and their ids are never reused.
 
@@ -15,9 +16,14 @@ channel map, channel ids are distinct, persisted listeners equal the in-memory o
 forget flag) holds initially and is preserved by every operation, for *both* values of the
 generated `forgetPersistsTracker` (it is never unfolded).  Only property theorems live here; helper
 lemmas are in `VlsModel/Lemmas/Prune.lean`.
+
+Section 5 composes C15 with C14 (`C15_prune_best_chain`): the depth condition under which a channel
+is pruned holds of the *replay of the surviving best chain*, not merely of whatever the monitor
+recorded.  Helper lemmas (the monitor ignores the forget flag, projection of a node history onto the
+block history of one monitor): `VlsModel/Lemmas/PruneChain.lean`.
 -/
 namespace VlsModel.Props.C15
-open VlsModel VlsModel.Monitor VlsModel.Prune VlsModel.Gen.Chain
+open VlsModel VlsModel.Monitor VlsModel.Prune VlsModel.Gen.Chain VlsModel.Props
 
 /-! ## The invariant -/
 
@@ -223,5 +229,236 @@ example :
 
 /-- the hypotheses of `C15_no_reuse` are satisfiable: channel 5 exists before the forget -/
 example : lookup 5 (run (Node.init 0 false) [.newChannel 5]).channels ≠ none := by decide
+
+/-! ## 5. The pruning condition is evaluated on the best-chain view (composition with C14)
+
+`C15_prune` states the depth condition on the state the monitor *recorded*.  C14 shows that after
+any valid history of block connections and disconnections the recorded state is the replay of the
+surviving chain.  The two are composed here, for node histories with every operation (restarts
+included: `Inv` relates the persisted to the in-memory listener up to the forget flag).
+
+`proj` maps a node history to the block history seen by one monitor; the monitor never reads or
+writes the forget flag (`addBlock_setF`, `removeBlock_setF`), so the projection is exact on
+`eraseForget`-ed states (`proj_run`). -/
+
+/-- **Projection lemma** (restated from `VlsModel/Lemmas/PruneChain.lean`).  Listener `k` is
+registered in `n` with monitor state `l0.st`; `ops` is a node history from `n` (any operations,
+restarts included) in which no `setup` re-registers key `k`, no operation panics and the block
+operations are well-bracketed over the stack `st0`.  If the listener is still registered at the end
+with state `l.st`, then C14's `run` of the projected history from `l0.st` succeeds and its final
+state equals `l.st` up to the forget flag. -/
+theorem C15_projection (n : Node) (ops : List Op) (k : Nat) (l0 l : Listener)
+    (st0 : List (List Tx)) (i : Inv n)
+    (h0 : lookup k n.listeners = some l0) (hk : NoRekey k ops) (hp : NoPanic n ops)
+    (hw : WellStacked st0 ops) (h : lookup k (run n ops).listeners = some l) :
+    ∃ s st, C14.run (l0.st, st0) (proj ops) = some (s, st) ∧ eraseForget s = eraseForget l.st :=
+  proj_run' i h0 hk hp hw h
+
+/-- **C15, prune, on the best chain.**  `n0` satisfies `Inv` and has listener `k` registered with a
+monitor state `l0.st` that has seen a block.  `pre` is a node history from `n0` (any operations,
+restarts included) that never re-registers key `k`, in which nothing panics, whose block operations
+are well-bracketed (`WellStacked []`: every `removeBlock txs` disconnects the block on top), and
+whose projection onto the monitor satisfies C14's structural validity `ValidRun`.  If channel `d`
+is ready with monitor key `k` after `pre` and is gone after one more operation `op`, then `op` is a
+heartbeat, and for the surviving chain `st` (the stack of the projected history) the replay of `st`
+from `l0.st` (forget flag erased) succeeds and yields a state `sStar` which *is* the live monitor
+state up to the forget flag; the node had asked to forget the channel, and one of the three closing
+events is buried `minDepth` deep **in `sStar`, the replay of the best chain**. -/
+theorem C15_prune_best_chain (n0 : Node) (pre : List Op) (op : Op) (d k : Nat) (l0 : Listener)
+    (i : Inv n0)
+    (hl0 : lookup k n0.listeners = some l0) (hsb : l0.st.sawBlock = true)
+    (hkey : NoRekey k pre) (hnp : NoPanic n0 pre) (hws : WellStacked [] pre)
+    (hv : C14.ValidRun (l0.st, []) (proj pre))
+    (h : lookup d (run n0 pre).channels = some (.ready k))
+    (hgone : lookup d (step (run n0 pre) op).1.channels ≠ some (.ready k)) :
+    op = .heartbeat ∧
+    ∃ l st sStar, lookup k (run n0 pre).listeners = some l ∧ l.st.sawForget = true ∧
+      (C14.run (l0.st, []) (proj pre)).map (·.2) = some st ∧
+      C14.replay (eraseForget l0.st) st = some sStar ∧ sStar = eraseForget l.st ∧
+      (minDepth ≤ sStar.depthOf sStar.dsHeight ∨ minDepth ≤ sStar.depthOf sStar.mutualHeight ∨
+        minDepth ≤ sStar.depthOf sStar.closingSweptHeight) := by
+  obtain ⟨hop, l, hl, hf, hdepth⟩ := C15_prune (run n0 pre) op d k (inv_run i pre) h hgone
+  obtain ⟨s, st, hrun, hs⟩ := proj_run' i hl0 hkey hnp hws hl
+  have hrep : C14.replay l0.st st = some s := C14.C14_best_chain_valid hsb hv hrun
+  refine ⟨hop, l, st, eraseForget l.st, hl, hf, by rw [hrun]; rfl, ?_, rfl, hdepth⟩
+  rw [show eraseForget l0.st = setF false l0.st from rfl, replay_setF, hrep]
+  exact congrArg some hs
+
+/-- the same with the conclusion on the unerased replay: `C14.replay l0.st st = some s` where `s`
+agrees with the live monitor state on everything but the forget flag, in particular on the depths -/
+theorem C15_prune_best_chain_unerased (n0 : Node) (pre : List Op) (op : Op) (d k : Nat) (l0 : Listener)
+    (i : Inv n0)
+    (hl0 : lookup k n0.listeners = some l0) (hsb : l0.st.sawBlock = true)
+    (hkey : NoRekey k pre) (hnp : NoPanic n0 pre) (hws : WellStacked [] pre)
+    (hv : C14.ValidRun (l0.st, []) (proj pre))
+    (h : lookup d (run n0 pre).channels = some (.ready k))
+    (hgone : lookup d (step (run n0 pre) op).1.channels ≠ some (.ready k)) :
+    op = .heartbeat ∧
+    ∃ l s st, lookup k (run n0 pre).listeners = some l ∧ l.st.sawForget = true ∧
+      C14.run (l0.st, []) (proj pre) = some (s, st) ∧ C14.replay l0.st st = some s ∧
+      (minDepth ≤ s.depthOf s.dsHeight ∨ minDepth ≤ s.depthOf s.mutualHeight ∨
+        minDepth ≤ s.depthOf s.closingSweptHeight) := by
+  obtain ⟨hop, l, hl, hf, hdepth⟩ := C15_prune (run n0 pre) op d k (inv_run i pre) h hgone
+  obtain ⟨s, st, hrun, hs⟩ := proj_run' i hl0 hkey hnp hws hl
+  refine ⟨hop, l, s, st, hl, hf, hrun, C14.C14_best_chain_valid hsb hv hrun, ?_⟩
+  have e : ∀ x : State, (x.depthOf x.dsHeight, x.depthOf x.mutualHeight,
+      x.depthOf x.closingSweptHeight) =
+      ((eraseForget x).depthOf (eraseForget x).dsHeight,
+        (eraseForget x).depthOf (eraseForget x).mutualHeight,
+        (eraseForget x).depthOf (eraseForget x).closingSweptHeight) := fun _ => rfl
+  have e' := (e s).trans ((congrArg (fun x : State => (x.depthOf x.dsHeight,
+    x.depthOf x.mutualHeight, x.depthOf x.closingSweptHeight)) hs).trans (e l.st).symm)
+  simp only [Prod.mk.injEq] at e'
+  obtain ⟨e1, e2, e3⟩ := e'
+  rw [e1, e2, e3]
+  exact hdepth
+
+/-- **C15, prune, on the best chain, whole history.**  If channel `d` is ready with monitor key `k`
+in `n0` and no longer so after the history `ops` (same hypotheses on `ops` as in
+`C15_prune_best_chain`), then `ops = pre ++ heartbeat :: post` where after `pre` the channel was
+still ready, the node had asked to forget it, and a closing event is buried `minDepth` deep in the
+replay of the chain surviving `pre`. -/
+theorem C15_prune_best_chain_run (n0 : Node) (ops : List Op) (d k : Nat) (l0 : Listener)
+    (i : Inv n0)
+    (hl0 : lookup k n0.listeners = some l0) (hsb : l0.st.sawBlock = true)
+    (hkey : NoRekey k ops) (hnp : NoPanic n0 ops) (hws : WellStacked [] ops)
+    (hv : C14.ValidRun (l0.st, []) (proj ops))
+    (h : lookup d n0.channels = some (.ready k))
+    (hgone : lookup d (run n0 ops).channels ≠ some (.ready k)) :
+    ∃ pre post l st sStar, ops = pre ++ .heartbeat :: post ∧
+      lookup d (run n0 pre).channels = some (.ready k) ∧
+      lookup k (run n0 pre).listeners = some l ∧ l.st.sawForget = true ∧
+      (C14.run (l0.st, []) (proj pre)).map (·.2) = some st ∧
+      C14.replay (eraseForget l0.st) st = some sStar ∧ sStar = eraseForget l.st ∧
+      (minDepth ≤ sStar.depthOf sStar.dsHeight ∨ minDepth ≤ sStar.depthOf sStar.mutualHeight ∨
+        minDepth ≤ sStar.depthOf sStar.closingSweptHeight) := by
+  obtain ⟨pre, post, l, rfl, hc, hl, hf, hdepth⟩ := C15_prune_run n0 ops d k i h hgone
+  obtain ⟨s, st, hrun, hs⟩ := proj_run' i hl0 hkey.prefix hnp.prefix hws.prefix hl
+  rw [proj_append] at hv
+  have hrep : C14.replay l0.st st = some s :=
+    C14.C14_best_chain_valid hsb (validRun_prefix hv) hrun
+  refine ⟨pre, post, l, st, eraseForget l.st, rfl, hc, hl, hf, by rw [hrun]; rfl, ?_, rfl, hdepth⟩
+  rw [show eraseForget l0.st = setF false l0.st from rfl, replay_setF, hrep]
+  exact congrArg some hs
+
+/-! ## 6. Non-vacuity of section 5
+
+`minDepth` is the generated constant 100, so a history that actually prunes needs 100 blocks (too
+slow for `decide`); the projection lemma and the hypotheses of `C15_prune_best_chain` are exercised
+on short concrete histories instead: new channel, setup, funding block (= `bcN0`), then mutual
+close, forget, further blocks, a disconnection, a restart, a heartbeat. -/
+
+def bcFunding : List Tx := [{ txid := 7, inputs := [(1, 0)], nOut := 1, kind := .plain }]
+def bcMutual : List Tx := [{ txid := 20, inputs := [(7, 0)], nOut := 1, kind := .plain }]
+def bcOther : List Tx := [{ txid := 30, inputs := [(29, 0)], nOut := 2, kind := .plain }]
+
+def bcN0 : Node :=
+  run (Node.init 100 false) [.newChannel 5, .setup 5 1 7 0 [(1, 0)], .addBlock bcFunding]
+
+def bcL0 : Listener :=
+  { st := { State.init 100 7 0 [(1, 0)] with
+      height := 101, fundingHeight := some 101, fundingOutpoint := some (7, 0), sawBlock := true },
+    slot := { txidWatches := [7], watches := [(7, 0)], seen := [(1, 0)] } }
+
+def bcOps : List Op :=
+  [.addBlock bcMutual, .forget 5, .addBlock bcOther, .restart, .addBlock [], .removeBlock [],
+   .heartbeat, .newChannel 6, .addBlock []]
+
+/-- every hypothesis of the projection lemma holds for `bcN0`, `bcOps` -/
+example : Inv bcN0 := C15_inv_reachable 100 false _
+example : lookup 5 bcN0.channels = some (.ready 1) ∧ lookup 1 bcN0.listeners = some bcL0 ∧
+    bcL0.st.sawBlock = true := by decide
+example : NoRekey 1 bcOps := by simp [NoRekey, bcOps, Op.rekeys]
+example : NoPanic bcN0 bcOps := by decide
+example : WellStacked [] bcOps := by simp [WellStacked, bcOps]
+example : proj bcOps = [.add bcMutual, .add bcOther, .add [], .remove, .add []] := rfl
+
+/-- the conclusion computed: the live monitor state (flag erased) equals the run of the projected
+history, the surviving stack is `[[], bcOther, bcMutual]` (the block `[]` connected after the restart
+was disconnected again, another empty block was connected at the end), the forget flag is set, the mutual close is 3 deep, and the live state is
+the replay of the surviving chain -/
+example :
+    (lookup 1 (run bcN0 bcOps).listeners).map (fun l => eraseForget l.st) =
+      (C14.run (bcL0.st, []) (proj bcOps)).map (fun p => eraseForget p.1) ∧
+    (C14.run (bcL0.st, []) (proj bcOps)).map (·.2) = some [[], bcOther, bcMutual] ∧
+    (lookup 1 (run bcN0 bcOps).listeners).map
+        (fun l => (l.st.sawForget, l.st.height, l.st.mutualHeight, l.st.depthOf l.st.mutualHeight)) =
+      some (true, 104, some 102, 3) ∧
+    C14.replay (eraseForget bcL0.st) [[], bcOther, bcMutual] =
+      (lookup 1 (run bcN0 bcOps).listeners).map (fun l => eraseForget l.st) := by decide
+
+/-- the monitor state after the mutual-close block -/
+def bcS1 : State := { bcL0.st with height := 102, mutualHeight := some 102 }
+
+def bcOps2 : List Op :=
+  [.addBlock bcMutual, .forget 5, .addBlock [], .removeBlock [], .restart]
+
+/-- the projected history `[add bcMutual, add [], remove]` satisfies C14's `ValidRun`: all hypotheses
+of `C15_prune_best_chain` are jointly satisfiable -/
+theorem bc_valid : C14.ValidRun (bcL0.st, []) (proj bcOps2) := by
+  have hstep : C14.step (bcL0.st, []) (.add bcMutual) = some (bcS1, [bcMutual]) := by decide
+  refine ⟨⟨⟨by decide, by decide, by intro h0 h; simp [bcL0, State.init] at h⟩, ?_, ?_, by decide⟩, ?_⟩
+  · exact {
+      topo := by simp [Topo, bcMutual]
+      noDoubleSpend := by simp [NoDoubleSpend, bcMutual]
+      fundOnce := by simp [FundOnce, bcMutual, bcL0, State.init]
+      fundFresh := by simp [bcMutual, bcL0, State.init]
+      closeOnce := by simp [bcL0, State.init]
+      closingFunded := by simp [bcL0, State.init] }
+  · exact {
+      inputsNodup := by decide
+      txidsNodup := by decide
+      ourUnspent := by simp [bcL0, State.init]
+      htlcUnspent := by simp [bcL0, State.init]
+      secondUnspent := by simp [bcL0, State.init]
+      secondFresh := by simp [bcL0, State.init]
+      fundingLinked := by simp [bcL0, State.init]
+      uniLinked := by simp [bcL0, State.init]
+      mutualFinal := by simp [bcL0, State.init]
+      dsFresh := by simp [bcMutual, bcL0, State.init] }
+  · intro p' hp
+    rw [hstep] at hp
+    cases hp
+    show C14.ValidRun (bcS1, [bcMutual]) [.add [], .remove]
+    refine ⟨⟨⟨by decide, by decide, by intro h0 h; simp [bcS1, bcL0, State.init] at h⟩, ?_, ?_, by decide⟩,
+      fun _ _ => ⟨trivial, fun _ _ => trivial⟩⟩
+    · exact {
+        topo := trivial
+        noDoubleSpend := trivial
+        fundOnce := trivial
+        fundFresh := by simp
+        closeOnce := by simp
+        closingFunded := by simp [bcS1, bcL0, State.init] }
+    · exact {
+        inputsNodup := by decide
+        txidsNodup := by decide
+        ourUnspent := by simp
+        htlcUnspent := by simp
+        secondUnspent := by simp
+        secondFresh := by simp
+        fundingLinked := by simp [bcS1, bcL0, State.init]
+        uniLinked := by simp [bcS1, bcL0, State.init]
+        mutualFinal := by simp [bcS1, bcL0, State.init]
+        dsFresh := by simp }
+
+/-- use of the theorem: after `bcOps2` the mutual close is only 1 deep on the best chain, so no
+operation whatsoever makes channel 5 disappear -/
+example (op : Op) : lookup 5 (step (run bcN0 bcOps2) op).1.channels = some (.ready 1) := by
+  apply Classical.byContradiction
+  intro hg
+  obtain ⟨_, l, st, sStar, hl, _, _, _, rfl, hd⟩ :=
+    C15_prune_best_chain bcN0 bcOps2 op 5 1 bcL0 (C15_inv_reachable 100 false _) (by decide)
+      (by decide) (by simp [NoRekey, bcOps2, Op.rekeys]) (by decide)
+      (by simp [WellStacked, bcOps2]) bc_valid (by decide) hg
+  have hfacts : (lookup 1 (run bcN0 bcOps2).listeners).map
+      (fun l => (l.st.depthOf l.st.dsHeight, l.st.depthOf l.st.mutualHeight,
+        l.st.depthOf l.st.closingSweptHeight)) = some (0, 1, 0) := by decide
+  rw [hl] at hfacts
+  simp only [Option.map_some, Option.some.injEq, Prod.mk.injEq] at hfacts
+  obtain ⟨h1, h2, h3⟩ := hfacts
+  change minDepth ≤ l.st.depthOf l.st.dsHeight ∨ minDepth ≤ l.st.depthOf l.st.mutualHeight ∨
+    minDepth ≤ l.st.depthOf l.st.closingSweptHeight at hd
+  rw [h1, h2, h3] at hd
+  simp [minDepth] at hd
 
 end VlsModel.Props.C15
